@@ -3,7 +3,8 @@
 LOG=$1; shift
 for d in "$@"; do
   n=$(basename $d); p=${n:0:3}
+  if [ -f $d/notes.md ] && head -1 $d/notes.md | grep -q "^PROPERTY: C"; then p=$(head -1 $d/notes.md | sed 's/PROPERTY: *//' | cut -c1-3); fi
   if [ ! -f $d/patch.diff ] || [ ! -f $d/demo.py ]; then echo "[$n] incomplete (no patch.diff / demo.py)" >> $LOG; continue; fi
-  /verif/tools/try_seed.sh $d 280 $p $EXTRA 2>&1 | grep -v WARNING >> $LOG
+  ${VERIF_DIR:-/verif}/tools/try_seed.sh $d 280 $p $EXTRA 2>&1 | grep -v WARNING >> $LOG
 done
 echo "WAVE DONE" >> $LOG
